@@ -48,6 +48,8 @@ python3 translator/py2coq_datascs.py "$REPO/src/lcm" coq/Gen >> build/translator
 echo "translator_datascs_status=$?" >> build/translator.log
 python3 translator/py2coq_fmask.py "$REPO/src/lcm" coq/Gen >> build/translator.log 2>&1
 echo "translator_fmask_status=$?" >> build/translator.log
+python3 translator/py2coq_vinfo.py "$REPO/src/lcm" coq/Gen >> build/translator.log 2>&1
+echo "translator_vinfo_status=$?" >> build/translator.log
 cd coq
 if [ ! -f Makefile ] || [ _CoqProject -nt Makefile ]; then
   coq_makefile -f _CoqProject -o Makefile > ../build/coq_makefile.log 2>&1
@@ -60,4 +62,6 @@ timeout 600 make runner_scs > ../build/scs_runner.log 2>&1
 echo "scs_runner_status=$?" >> ../build/scs_runner.log
 timeout 600 make runner_fmask > ../build/fmask_runner.log 2>&1
 echo "fmask_runner_status=$?" >> ../build/fmask_runner.log
+timeout 600 make runner_vinfo > ../build/vinfo_runner.log 2>&1
+echo "vinfo_runner_status=$?" >> ../build/vinfo_runner.log
 exit 0
